@@ -119,6 +119,9 @@ pub struct Sim {
 
 fn rent(len: usize) -> u64 { (128 + len as u64) * 6960 }
 
+/// a flag read from the raw little-endian flags word of an account (not through the crate's accessor, which is code under test)
+fn raw_bit<T: bytemuck::Pod>(flags: &T, i: usize) -> bool { let b = bytemuck::bytes_of(flags); (b[i / 8] >> (i % 8)) & 1 == 1 }
+
 impl Sim {
     pub async fn new(id: u64) -> Sim {
         let mut pt = ProgramTest::new("doublezero_revenue_distribution", rd::ID, processor!(rd_entry));
@@ -227,7 +230,7 @@ impl Sim {
                     let m = self.kterm(&c.rewards_manager_key); let s = self.kterm(&c.service_key);
                     let rec: Vec<String> = c.recipient_shares.active_iter().map(|r| { let k = self.keys.k(&r.recipient_key); format!("({}, {})", k, u16::from(r.share)) }).collect();
                     return format!("(DContrib {{| cr_manager := {}; cr_service := {}; cr_blocked := {}; cr_recipients := [{}] |}})",
-                        m, s, c.is_set_rewards_manager_blocked(), rec.join("; "));
+                        m, s, raw_bit(&c.flags, rd::state::ContributorRewards::FLAG_IS_SET_REWARDS_MANAGER_BLOCKED_BIT), rec.join("; "));
                 }
                 self.raw(data)
             }
@@ -235,7 +238,7 @@ impl Sim {
                 if let Some((c, _)) = zc::<pp::state::ProgramConfig>(data) {
                     let ad = self.kterm(&c.admin_key); let se = self.kterm(&c.sentinel_key);
                     return format!("(DPpConfig {{| pc_paused := {}; pc_request_paused := {}; pc_admin := {}; pc_sentinel := {}; pc_deposit := {}; pc_fee := {}; pc_backup_limit := {} |}})",
-                        c.is_paused(), c.is_request_access_paused(), ad, se, c.request_deposit_lamports, c.request_fee_lamports, c.solana_validator_backup_ids_limit);
+                        raw_bit(&c.flags, pp::state::ProgramConfig::FLAG_IS_PAUSED_BIT), raw_bit(&c.flags, pp::state::ProgramConfig::FLAG_IS_REQUEST_ACCESS_PAUSED_BIT), ad, se, c.request_deposit_lamports, c.request_fee_lamports, c.solana_validator_backup_ids_limit);
                 }
                 if let Some((r, _)) = zc::<pp::state::AccessRequest>(data) {
                     let mode: Option<pp::instruction::AccessMode> = borsh::BorshDeserialize::deserialize(&mut &r.encoded_access_mode[..]).ok();
@@ -311,7 +314,7 @@ impl Sim {
         format!("(DConfig {{| c_paused := {}; c_migrated := {}; c_next_epoch := {}; c_has_swap_auth_bump := {}; c_has_swap_dest_bump := {}; c_has_withdraw_bump := {}; \
 c_admin := {}; c_debt_accountant := {}; c_rewards_accountant := {}; c_contributor_manager := {}; c_swap_program := {}; c_calc_grace_min := {}; c_init_grace_min := {}; \
 c_min_epochs := {}; c_burn := mkP {} {} {} {} {} {}; c_fees := {}; c_relay := {}; c_last_init_ts := {}; c_writeoff_activation := {} |}})",
-            c.is_paused(), c.is_migrated(), c.next_completed_dz_epoch.value(), c.swap_authority_bump_seed != 0, c.swap_destination_2z_bump_seed != 0,
+            raw_bit(&c.flags, rd::state::ProgramConfig::FLAG_IS_PAUSED_BIT), raw_bit(&c.flags, rd::state::ProgramConfig::FLAG_IS_MIGRATED_BIT), c.next_completed_dz_epoch.value(), c.swap_authority_bump_seed != 0, c.swap_destination_2z_bump_seed != 0,
             c.withdraw_sol_authority_bump_seed != 0, a, d, r, m, s, dp.calculation_grace_period_minutes, dp.initialization_grace_period_minutes,
             dp.minimum_epoch_duration_to_finalize_rewards, br[0], br[1], br[2], br[3], br[4], br[5], fee_term(f),
             c.relay_parameters.distribute_rewards_lamports, c.last_initialized_distribution_timestamp, c.debt_write_off_feature_activation_epoch.value())
@@ -324,8 +327,8 @@ c_min_epochs := {}; c_burn := mkP {} {} {} {} {} {}; c_fees := {}; c_relay := {}
 d_debt_root := {}; d_total_validators := {}; d_payments_count := {}; d_total_debt := {}; d_collected_sol := {}; d_rewards_root := {}; d_total_contributors := {}; \
 d_distributed_count := {}; d_prepaid_2z := {}; d_swept_2z := {}; d_uncollectible := {}; d_debt_start := {}; d_debt_end := {}; d_rew_start := {}; d_rew_end := {}; \
 d_relay := {}; d_calc_allowed_ts := {}; d_distributed_2z := {}; d_burned_2z := {}; d_wo_start := {}; d_wo_end := {}; d_writeoff_count := {} |}} [{}])",
-            d.dz_epoch.value(), d.is_debt_calculation_finalized(), d.is_rewards_calculation_finalized(), d.has_swept_2z_tokens(),
-            d.is_solana_validator_debt_write_off_enabled(), u32::from(d.community_burn_rate), fee_term(&d.solana_validator_fee_parameters), dr,
+            d.dz_epoch.value(), raw_bit(&d.flags, rd::state::Distribution::FLAG_IS_DEBT_CALCULATION_FINALIZED_BIT), raw_bit(&d.flags, rd::state::Distribution::FLAG_IS_REWARDS_CALCULATION_FINALIZED_BIT),
+            raw_bit(&d.flags, rd::state::Distribution::FLAG_HAS_SWEPT_2Z_TOKENS_BIT), raw_bit(&d.flags, rd::state::Distribution::FLAG_IS_SOLANA_VALIDATOR_DEBT_WRITE_OFF_ENABLED_BIT), u32::from(d.community_burn_rate), fee_term(&d.solana_validator_fee_parameters), dr,
             d.total_solana_validators, d.solana_validator_payments_count, d.total_solana_validator_debt, d.collected_solana_validator_payments, rr,
             d.total_contributors, d.distributed_rewards_count, d.collected_prepaid_2z_payments, d.collected_2z_converted_from_sol, d.uncollectible_sol_debt,
             d.processed_solana_validator_debt_start_index, d.processed_solana_validator_debt_end_index, d.processed_rewards_start_index,
@@ -439,6 +442,23 @@ d_relay := {}; d_calc_allowed_ts := {}; d_distributed_2z := {}; d_burned_2z := {
             if data.len() >= 8 + off + 32 { data[8 + off..8 + off + 32].copy_from_slice(&ak); }
         }
         self.op(Op::ForgeRaw { to: to.clone(), owner: owner.clone(), lamports: a.lamports, data }).await;
+    }
+    /// type confusion: the genuine program's own owner, the bytes of a program config naming `attacker` in every role, unpaused, but
+    /// carrying the type tag of a *journal* (a config-shaped account of another type of the same program)
+    pub async fn forge_rd_config_mistagged(&mut self, attacker: &K, to: &K) {
+        use doublezero_program_tools::PrecomputedDiscriminator;
+        let p = self.keys.pk(&K::RdConfig);
+        let Some(a) = self.ctx.banks_client.get_account(p).await.unwrap() else { return };
+        let mut data = a.data.clone();
+        if data.len() > 8 { data[8] &= !1u8; }
+        let ak = self.keys.pk(attacker).to_bytes();
+        use core::mem::offset_of;
+        for off in [offset_of!(rd::state::ProgramConfig, admin_key), offset_of!(rd::state::ProgramConfig, debt_accountant_key),
+                    offset_of!(rd::state::ProgramConfig, rewards_accountant_key), offset_of!(rd::state::ProgramConfig, contributor_manager_key)] {
+            if data.len() >= 8 + off + 32 { data[8 + off..8 + off + 32].copy_from_slice(&ak); }
+        }
+        data[..8].copy_from_slice(rd::state::Journal::discriminator_slice());
+        self.op(Op::ForgeRaw { to: to.clone(), owner: K::Rd, lamports: a.lamports, data }).await;
     }
     pub async fn forge_pp_config(&mut self, attacker: &K, to: &K, owner: &K) {
         let p = self.keys.pk(&K::PpConfig);
